@@ -69,29 +69,34 @@ theorem single_record (S : Schema) (rec : Loader) (d : MsgD) (st st' : MState) (
 /-- singular / optional / oneof scalar slot -/
 theorem slotStep_scalar (S : Schema) (rec : Loader) (d : MsgD) (k : Nat) (f : FieldD) (hid sel : Bool) (v : Val)
     (hd : NumsDistinct d.fields) (hk : d.fields[k]? = some f) (hff : FlatField f)
-    (hr : f.repeated = false) (hv : scalarOk f.ty v = true) :
-    SlotStep S rec d k f hid sel v := by
-  intro st b hb hbl hkl how hfresh hpre
+    (hr : f.repeated = false) (hv : scalarOk f.ty v = true)
+    (R : FieldD → Val → Val → Prop) (hR : ∀ f v, R f v v) :
+    SlotStep S rec d R k f hid sel v := by
+  intro st b hb0 hbl hkl how hfresh hpre
+  have hb := hb0
   obtain ⟨hpl, hnm⟩ := scalarOk_plain f.ty v hv
   rw [dumpSlot_plain S f hid sel v hpl] at hb
   by_cases hbe : b = []
-  · exact ⟨[], fun _ h => by simp at h, by simp [joinRaw, hbe], by rw [if_pos hbe]; rfl⟩
-  · rw [if_neg hbe]
-    -- a record was emitted
-    by_cases hh : hid = true
-    · rw [if_pos hh] at hb; injection hb with hb; exact absurd hb.symm hbe
-    · rw [if_neg hh] at hb
-      split at hb
-      · injection hb with hb; exact absurd hb.symm hbe
-      · rw [hff.nw] at hb
-        obtain ⟨pf, hl, hn, hraw, hfit, hdec⟩ :=
-          scalar_record_roundtrip S rec f v _ b [] hff.num hff.sc hv hbl hb hbe
-        obtain ⟨hcur, hmates⟩ := hpre hbe
-        apply single_record S rec d st _ pf b hl hraw
-        rw [applyField_known_eq S rec d st pf k f hd hk hn hfit, hdec]
-        simp only [bind_ok]
-        exact store_singular S d st k f v hk hkl (flat_notmap f hff) (flat_default_notlist S f hff hr)
-          (flat_default_notmsg S f hff hr) hnm hfresh hcur hmates
+  · exact ⟨[], v, fun _ h => by simp at h, by simp [joinRaw, hbe], fun h => absurd hbe h, by rw [if_pos hbe]; rfl⟩
+  · -- a record was emitted
+    have hx : ∃ pfs, (∀ q ∈ pfs, Parsed q) ∧ joinRaw pfs = b
+        ∧ foldFields S rec d st pfs = .ok (afterStore st k f v) := by
+      by_cases hh : hid = true
+      · rw [if_pos hh] at hb; injection hb with hb; exact absurd hb.symm hbe
+      · rw [if_neg hh] at hb
+        split at hb
+        · injection hb with hb; exact absurd hb.symm hbe
+        · rw [hff.nw] at hb
+          obtain ⟨pf, hl, hn, hraw, hfit, hdec⟩ :=
+            scalar_record_roundtrip S rec f v _ b [] hff.num hff.sc hv hbl hb hbe
+          obtain ⟨hcur, hmates⟩ := hpre hbe
+          apply single_record S rec d st _ pf b hl hraw
+          rw [applyField_known_eq S rec d st pf k f hd hk hn hfit, hdec]
+          simp only [bind_ok]
+          exact store_singular S d st k f v hk hkl (flat_notmap f hff) (flat_default_notlist S f hff hr)
+            (flat_default_notmsg S f hff hr) hnm hfresh hcur hmates
+    obtain ⟨pfs, h1, h2, h3⟩ := hx
+    exact ⟨pfs, v, h1, h2, fun _ => ⟨hR f v, hb0⟩, by rw [if_neg hbe]; exact h3⟩
 
 /-- storing into a repeated field: the (materialised) list is extended in place -/
 theorem store_repeated (S : Schema) (d : MsgD) (st : MState) (k : Nat) (f : FieldD) (acc : List Val) (v : Val)
@@ -176,9 +181,11 @@ theorem items_fold (S : Schema) (rec : Loader) (d : MsgD) (k : Nat) (f : FieldD)
 /-- repeated scalar slot (packed or not) -/
 theorem slotStep_repeated (S : Schema) (rec : Loader) (d : MsgD) (k : Nat) (f : FieldD) (sel : Bool) (xs : List Val)
     (hd : NumsDistinct d.fields) (hk : d.fields[k]? = some f) (hff : FlatField f)
-    (hr : f.repeated = true) (hx : ∀ x ∈ xs, scalarOk f.ty x = true) (hsel : sel = false) :
-    SlotStep S rec d k f false sel (.list xs) := by
-  intro st b hb hbl hkl how hfresh hpre
+    (hr : f.repeated = true) (hx : ∀ x ∈ xs, scalarOk f.ty x = true) (hsel : sel = false)
+    (R : FieldD → Val → Val → Prop) (hR : ∀ f v, R f v v) :
+    SlotStep S rec d R k f false sel (.list xs) := by
+  intro st b hb0 hbl hkl how hfresh hpre
+  have hb := hb0
   obtain ⟨ho, hg⟩ := hff.rep hr
   subst hsel
   have hdk : f.defKind = .list := by unfold FieldD.defKind; simp [hr]
@@ -190,50 +197,31 @@ theorem slotStep_repeated (S : Schema) (rec : Loader) (d : MsgD) (k : Nat) (f : 
     Bool.and_true, hdk] at hb
   have hed : eqDefault S .list (.list xs) = xs.isEmpty := by rw [eqDefault]; simp
   rw [hed] at hb
-  by_cases hxe : xs = []
-  · subst hxe
-    simp at hb; subst hb
-    exact ⟨[], fun _ h => by simp at h, rfl, by simp [foldFields]⟩
-  · have hxe' : xs.isEmpty = false := by cases xs <;> simp_all
+  by_cases hbe : b = []
+  · exact ⟨[], .list xs, fun _ h => by simp at h, by simp [joinRaw, hbe], fun h => absurd hbe h, by rw [if_pos hbe]; rfl⟩
+  · have hxe : xs ≠ [] := by
+      intro hc; subst hc; simp at hb; exact hbe hb
+    have hxe' : xs.isEmpty = false := by cases xs <;> simp_all
     rw [hxe'] at hb
     simp only [Bool.false_eq_true, if_false] at hb
-    by_cases hp : isPacked f.ty = true
-    · rw [if_pos hp] at hb
-      obtain ⟨pf, hl, hn, hraw, hfit, hdec⟩ :=
-        packed_record_roundtrip S rec f xs b [] hff.num hp hr hx hxe hbl hb
-      have hbne : b ≠ [] := by
-        intro hc; subst hc
-        have := loadField_ok _ _ _ hl
-        have h2 := this.raw_pos
-        rw [hraw] at h2; simp at h2
-      rw [if_neg hbne]
-      apply single_record S rec d st _ pf b hl hraw
-      rw [applyField_known_eq S rec d st pf k f hd hk hn hfit, hdec]
-      simp only [bind_ok]
-      rw [store_repeated S d st k f [] (.list xs) hkl (flat_notmap f hff) hg hmat]
-      simp [afterStore, hg, how]
-    · rw [if_neg hp] at hb
-      obtain ⟨pfs, hp1, hj1, hf1⟩ := items_fold S rec d k f hd hk hff hg xs [] st b hx hb hbl hkl hmat
-      refine ⟨pfs, hp1, hj1, ?_⟩
-      rw [hf1]
-      simp only [hxe, if_false, List.nil_append]
-      have hbne : b ≠ [] := by
-        intro hc; subst hc
-        cases pfs with
-        | nil =>
-          simp [foldFields, hxe] at hf1
-          -- the fold over no record leaves the slot PLACEHOLDER, but it must hold the list
-          have := congrArg (fun s => s.slots.getD k .ph) hf1
-          simp only at this
-          rw [getD_setAt_self _ _ _ hkl, hfr] at this
-          cases this
-        | cons q qs =>
-          have hq := hp1 q (by simp)
-          obtain ⟨bs0, r0, hlq⟩ := hq
-          have := (loadField_ok _ _ _ hlq).raw_pos
-          simp [joinRaw] at hj1
-          rw [hj1.1] at this; simp at this
-      rw [if_neg hbne]
-      simp [afterStore, hg, how]
+    have hx' : ∃ pfs, (∀ q ∈ pfs, Parsed q) ∧ joinRaw pfs = b
+        ∧ foldFields S rec d st pfs = .ok (afterStore st k f (.list xs)) := by
+      by_cases hp : isPacked f.ty = true
+      · rw [if_pos hp] at hb
+        obtain ⟨pf, hl, hn, hraw, hfit, hdec⟩ :=
+          packed_record_roundtrip S rec f xs b [] hff.num hp hr hx hxe hbl hb
+        apply single_record S rec d st _ pf b hl hraw
+        rw [applyField_known_eq S rec d st pf k f hd hk hn hfit, hdec]
+        simp only [bind_ok]
+        rw [store_repeated S d st k f [] (.list xs) hkl (flat_notmap f hff) hg hmat]
+        simp [afterStore, hg, how]
+      · rw [if_neg hp] at hb
+        obtain ⟨pfs, hp1, hj1, hf1⟩ := items_fold S rec d k f hd hk hff hg xs [] st b hx hb hbl hkl hmat
+        refine ⟨pfs, hp1, hj1, ?_⟩
+        rw [hf1]
+        simp only [hxe, if_false, List.nil_append]
+        simp [afterStore, hg, how]
+    obtain ⟨pfs, h1, h2, h3⟩ := hx'
+    exact ⟨pfs, .list xs, h1, h2, fun _ => ⟨hR f _, hb0⟩, by rw [if_neg hbe]; exact h3⟩
 
 end Bp
